@@ -299,6 +299,83 @@ func c10body(first []string, maxLen int) func() {
 	}
 }
 
+// c10conc: concurrent senders racing an acknowledgement. At quiescence every accepted
+// stanza that the acknowledgement did not cover must be held exactly once.
+func c10conc(progs [][]string, ackH int) func() {
+	return func() {
+		vrt.Quiet(true)
+		s := newSess(sessOpts{sm: true, smResume: true, keepalive: 3600})
+		if s.cl == nil {
+			return
+		}
+		if err := s.cl.Connect(); err != nil {
+			vrt.Fail("C10|harness|connect", "%v", err)
+			return
+		}
+		vrt.WaitIdle()
+		sc := s.conn(0)
+		sc.pending = nil
+		sc.drainNew()
+		vrt.Quiet(false)
+		var accepted []string
+		for ti, prog := range progs {
+			ti, prog := ti, prog
+			var mine []string
+			for oi, op := range prog {
+				id := fmt.Sprintf("t%do%d", ti, oi)
+				if op == "raw" {
+					mine = append(mine, fmt.Sprintf("<presence id='%s'><status>x</status></presence>", id))
+				} else {
+					mine = append(mine, fmt.Sprintf(`<message type="chat" id="%s" to="peer@example.org"><body>b</body></message>`, id))
+				}
+			}
+			accepted = append(accepted, mine...)
+			vrt.Go(fmt.Sprintf("sender%d", ti), func() {
+				for oi, op := range prog {
+					id := fmt.Sprintf("t%do%d", ti, oi)
+					if op == "raw" {
+						_ = s.cl.SendRaw(mine[oi])
+					} else {
+						_ = s.cl.Send(stanza.Message{Attrs: stanza.Attrs{To: "peer@example.org", Id: id, Type: "chat"}, Body: "b"})
+					}
+				}
+			})
+		}
+		sc.send(fmt.Sprintf("<a xmlns='urn:xmpp:sm:3' h='%d'/>", ackH))
+		vrt.WaitIdle()
+		vrt.Quiet(true)
+		q := c10queue(s.cl)
+		desc := fmt.Sprintf("senders %v racing <a h=%d/>", progs, ackH)
+		count := map[string]int{}
+		for _, e := range q {
+			count[e]++
+			if c10isNonza(e) {
+				vrt.Fail("C10|nonza-held|concurrent", "%s: queue %q", desc, q)
+			}
+		}
+		for _, a := range accepted {
+			switch {
+			case count[a] == 0:
+				vrt.Fail("C10|unacked-stanza-not-held|concurrent", "%s: %s was accepted and never acknowledged but is not held at quiescence (queue %q)", desc, a, q)
+			case count[a] > 1:
+				vrt.Fail("C10|held-twice|concurrent", "%s: %s is held %d times (queue %q)", desc, a, count[a], q)
+			}
+		}
+		// sequence numbers strictly increasing
+		if uq := s.cl.Session.SMState.UnAckQueue; uq != nil {
+			last := 0
+			for _, e := range uq.Uslice {
+				if e == nil || e.Id <= last {
+					vrt.Fail("C10|held-numbers-not-increasing|concurrent", "%s: queue numbering broken", desc)
+					break
+				}
+				last = e.Id
+			}
+		}
+		vrt.Log("queue %d entries", len(q))
+	}
+}
+
 func max0(n int) int {
 	if n < 0 {
 		return 0
@@ -323,6 +400,16 @@ func TestVerifC10(t *testing.T) {
 	for _, a := range c10ops {
 		for _, b := range c10ops {
 			scs = append(scs, hx.Scenario{Name: "seq/first=" + a + "," + b, Opt: vrt.Options{Bound: 0}, Body: c10body([]string{a, b}, maxLen), Verdict: c10verdict})
+		}
+	}
+	cb := 2
+	if hx.Thorough() {
+		cb = 3
+	}
+	for _, progs := range [][][]string{{{"msg"}, {"raw"}}, {{"msg", "msg"}, {"raw"}}, {{"msg", "raw"}, {"raw", "msg"}}} {
+		for _, h := range []int{0, 1} {
+			scs = append(scs, hx.Scenario{Name: fmt.Sprintf("conc/%v/h=%d", progs, h), Opt: vrt.Options{Bound: cb, Horizon: 50000, TouchOn: []string{"Uslice"}},
+				Body: c10conc(progs, h), Verdict: c10verdict})
 		}
 	}
 	if hx.Main("C10", scs) == 2 {
